@@ -15,13 +15,21 @@
 (* Deliberate deviations of the code, as parameters of the machine:        *)
 (*   W64  the signed machine word in which InboundFee.CalcFee multiplies   *)
 (*        rate * amount (lnd: 2^64).  0 = ideal integers.           [F5]   *)
+(*   SplitFee  TRUE = CalcFee as repaired by 881cf42 (F5): the amount is   *)
+(*        split, rate*(amt / 10^6) + rate*(amt % 10^6)/10^6, so that no    *)
+(*        product wraps below 9.2*10^17 msat; FALSE = the code before the  *)
+(*        repair, rate*amt/10^6, which wraps from 9.2*10^11 msat on.       *)
 (*   W32  the unsigned word in which heightNow + delta is added            *)
 (*        (lnd: 2^32).  0 = ideal integers.                          [F5b] *)
-(* With W64 = W32 = 0 the machine is the repaired code.  TLC checks it on  *)
-(* the boundary lattice with ideal words and with scaled-down words        *)
-(* (2^22 / 2^12): inside the correspondingly scaled box it satisfies the   *)
-(* property, outside TLC finds the two wrap classes by itself.  Apalache   *)
-(* does the same with the real widths (ForwardPolicyApa).                  *)
+(* With W64 = W32 = 0 the machine computes in ideal integers.  TLC checks  *)
+(* it on the boundary lattice with ideal words and with scaled-down words  *)
+(* (2^24 / 2^12): inside the correspondingly scaled box it satisfies the   *)
+(* property, outside TLC finds the two wrap classes by itself (10^6 is not *)
+(* scaled, so SplitFee makes no difference there).  Apalache does the same *)
+(* with the real widths (ForwardPolicyApa): any case of the realistic box  *)
+(* agrees; with SplitFee no int64 witness exists up to 180 BTC and any     *)
+(* int32 rate, without it Apalache returns the F5 witness; F5b witnesses   *)
+(* exist (known finding).                                                  *)
 (***************************************************************************)
 EXTENDS ForwardPolicyRules
 
@@ -30,6 +38,8 @@ CONSTANTS
   Cases,      \* the cases to decide (MC: the boundary lattice)
   \* @type: Int;
   W64,
+  \* @type: Bool;
+  SplitFee,
   \* @type: Int;
   W32
 
@@ -58,15 +68,24 @@ WrapS(x) == IF W64 = 0 THEN x ELSE ((x + W64 \div 2) % W64) - W64 \div 2
 \* @type: (Int, Int) => Int;
 Sum32(a, b) == IF W32 = 0 THEN a + b ELSE (a + b) % W32
 
-\* InboundFee.CalcFee(amtToForward + outFee): base + clamp(rate) * amt / 10^6 in int64
+\* InboundFee.CalcFee(amtToForward + outFee) in int64: base + clamp(rate) * amt / 10^6, the product either
+\* of the whole amount (before 881cf42) or of its two parts (since)
+\* @type: (Int, Int) => Int;
+CodeProp(r, amt) ==
+  IF SplitFee THEN WrapS(r * (amt \div Mil)) + TruncDiv(WrapS(r * (amt % Mil)), Mil)
+              ELSE TruncDiv(WrapS(r * amt), Mil)
 \* @type: ($case) => Int;
-CodeInFee(x) == x.ibase + TruncDiv(WrapS(Clamp(x.irate) * (x.out + OutFee(x))), Mil)
+CodeInFee(x) == x.ibase + CodeProp(Clamp(x.irate), x.out + OutFee(x))
 \* @type: ($case) => Int;
 CodeExpectedFee(x) == CodeInFee(x) + OutFee(x)
 
 \* inside this box the machine words do not wrap
 \* @type: ($case) => Bool;
-NoWrap64(x) == W64 # 0 => LET p == Clamp(x.irate) * (x.out + OutFee(x)) IN p < W64 \div 2 /\ p >= -(W64 \div 2)
+NoWrap64(x) == W64 # 0 =>
+  LET r == Clamp(x.irate)
+      a == x.out + OutFee(x)
+      In(p) == p < W64 \div 2 /\ p >= -(W64 \div 2) IN
+  IF SplitFee THEN In(r * (a \div Mil)) /\ In(r * (a % Mil)) ELSE In(r * a)
 \* @type: ($case) => Bool;
 NoWrap32(x) == W32 # 0 => x.height + x.rdelta < W32 /\ x.height + x.maxCltv < W32
 \* @type: ($case) => Bool;
